@@ -1,6 +1,7 @@
 import CminxModel.Main
 import CminxProps.C18
 import CminxProps.C16Cli
+import CminxProps.C15Glob
 /-!
 # Program-level corollaries: `cminx <argv>` as one function (`Main.cminxMain`)
 
@@ -163,5 +164,64 @@ theorem CMain_recursive_from_files (argv : List Str) (sfile : Str → Source) (u
     rw [C16_cli_recursive_absent p hr] at hg
     have hg' : Vals.get vals' "input.recursive" = some (.bool b) := hg.trans he
     simp [walkCfgOfSettings, Vals.bool, hg']
+
+/-! ## exclusion patterns at the level of the whole program (C15: "regardless of which source supplied the pattern") -/
+
+/-- a pattern of any of the three sources is among the patterns in effect -/
+theorem allContents_mem (sources : List Source) (src : Source) (l : List CVal) (v : CVal)
+    (hs : src ∈ sources) (hl : src.get filtersKey = some (.list l)) (hv : v ∈ l) :
+    v ∈ allContents sources filtersKey := by
+  unfold allContents
+  rw [List.mem_flatMap]
+  exact ⟨.list l, List.mem_filterMap.mpr ⟨src, hs, hl⟩, hv⟩
+
+theorem mem_patternStrs {filters : List CVal} {n : Str} (h : CVal.str n ∈ filters) : n ∈ patternStrs filters := by
+  unfold patternStrs
+  exact List.mem_filterMap.mpr ⟨.str n, h, rfl⟩
+
+/-- "regardless of which source supplied the pattern": a pattern given with `-e`, in the `-s` file or in the user file is among the patterns
+    the run compiles -/
+theorem CMain_pattern_from_any_source (argv : List Str) (sfile : Str → Source) (user defaults : Source)
+    (files : List Str) (vals : Vals) (filters : List CVal)
+    (h : mainSettings argv sfile user defaults = some (.ok (files, vals, filters)))
+    (p : Parsed) (hp : parseArgv argv {} = some p) (n : Str)
+    (hsrc : n ∈ p.excludes ∨
+      (∃ l, (match p.settings with | some f => sfile f | none => []).get filtersKey = some (.list l) ∧ CVal.str n ∈ l) ∨
+      (∃ l, user.get filtersKey = some (.list l) ∧ CVal.str n ∈ l)) :
+    n ∈ patternStrs filters := by
+  unfold mainSettings at h
+  rw [hp] at h
+  simp only [Option.some.injEq] at h
+  split at h
+  · cases h
+  · rename_i vals' filters' hres
+    simp only [Except.ok.injEq, Prod.mk.injEq] at h
+    obtain ⟨_, _, hf⟩ := h
+    subst hf
+    obtain ⟨_, hfs, _⟩ := C16_filters_main _ _ _ hres
+    rw [hfs]
+    apply mem_patternStrs
+    simp only [List.take]
+    rcases hsrc with hcli | ⟨l, hl, hv⟩ | ⟨l, hl, hv⟩
+    · have hne : p.excludes ≠ [] := by intro e; rw [e] at hcli; cases hcli
+      refine allContents_mem _ (cliSource p) (p.excludes.map CVal.str) _ (List.mem_cons_self ..) ?_ (List.mem_map.mpr ⟨n, hcli, rfl⟩)
+      rw [cliSource_get_filters p]
+      have : p.excludes.isEmpty = false := by cases hx : p.excludes with
+        | nil => exact absurd hx hne
+        | cons a b => rfl
+      simp [this]
+    · exact allContents_mem _ _ l _ (List.mem_cons_of_mem _ (List.mem_cons_self ..)) hl hv
+    · exact allContents_mem _ user l _ (List.mem_cons_of_mem _ (List.mem_cons_of_mem _ (List.mem_cons_self ..))) hl hv
+
+/-- C15 at the level of the whole program, for bare names: whichever source supplied the name, an entry of the walk is excluded iff its
+    absolute path has a component of one of the names — directories (not descended into) and files alike, for every input of the command line -/
+theorem CMain_bare_names_exclude_iff (filters : List CVal) (cs : List Glob.Compiled)
+    (hc : Glob.compileAll (patternStrs filters) = .ok cs) (hpl : ∀ q ∈ patternStrs filters, Glob.Plain q)
+    (w : World) (habs : w.absPath ≠ []) (rel : List Str) (hp : Glob.PathOk (w.absPath ++ rel)) (isDir : Bool) :
+    (mainInputOf cs w).excl rel isDir = (patternStrs filters).any (fun n => decide (n ∈ w.absPath ++ rel)) := by
+  obtain ⟨cs', hc', hex⟩ := Glob.C15G_exclOf_bare (patternStrs filters) hpl w.absPath rel hp habs isDir
+  rw [hc] at hc'
+  cases hc'
+  simpa [mainInputOf] using hex
 
 end Cminx
